@@ -192,6 +192,80 @@ def run(prog, ctx):
                                 bad[1], bad[0], ty.rsplit("::", 1)[-1], c, bad[2], bad[3], block), f.id)
     res.rule("C16.B", n_b, 2, "buffered-length counters")
 
+    # ---------------- C16.W typed writes: std's `write_u8 .. write_u128 / write_usize / write_i*` forward to write(); an impl that overrides
+    # one of them adds a second way for bytes to enter the hash, which has to leave the hasher in the state write(&v.to_le_bytes())
+    # leaves it in.  Decided by value where the override's effect can be evaluated: (1) the buffered-length counter at exit is
+    # (pending + width) mod block for every pending length; (2) scalar words handed straight to a block routine of the hasher are the
+    # little-endian 8-byte words of the value, in order.  A path that forwards to write() is covered by the rules on write().
+    n_w = 0
+    WIDTH = {"u8": 1, "i8": 1, "u16": 2, "i16": 2, "u32": 4, "i32": 4, "u64": 8, "i64": 8, "u128": 16, "i128": 16, "usize": 8, "isize": 8}
+    for im in prog.impls:
+        if im.get("trait") != "std::hash::Hasher":
+            continue
+        ty = im["self_ty"]
+        adt = prog.adts.get(ty)
+        if not adt:
+            continue
+        fields = adt["variants"][0]["fields"]
+        buf = [(n, t) for n, t in fields if t.startswith("[u8; ")]
+        cnt = [n for n, t in fields if t == "usize"]
+        block = array_len(prog, buf[0][1]) if buf else None
+        for nm, did, _k in im["items"]:
+            if not nm.startswith("write_") or did not in prog.fns:
+                continue
+            g = prog.fns[did]
+            width = WIDTH.get(nm[len("write_"):])
+            if width is None or g.argc != 2:
+                res.tri(None, "C16.W", "C16.W|%s|%s" % (ty, nm), "override %s of unknown width" % nm, g.id)
+                n_w += 1
+                continue
+            n_w += 1
+            sg = Sym(prog, g)
+            pn = g.local_name(2) or "i"
+            verdict, wit = None, "effect of %s not evaluable" % nm
+            # (1) buffered-length counter
+            if block and len(cnt) == 1:
+                e = sg.field_exit_value(cnt[0])
+                if e is not None:
+                    for b0 in range(block):
+                        try:
+                            got = formula.evaluate(e, {"@prog": prog, "self.%s" % cnt[0]: b0, "self.%s" % buf[0][0]: list(range(block)),
+                                                       "len(self.%s)" % buf[0][0]: block, pn: 0x5a})
+                        except (formula.Uneval, TypeError, IndexError):
+                            continue
+                        if not isinstance(got, int):
+                            continue
+                        if verdict is None:
+                            verdict = True
+                        if got != (b0 + width) % block and verdict is not False:
+                            verdict, wit = False, ("with %d byte(s) pending, %s leaves %s.%s = %d although %d byte(s) are pending after it (block %d): write() never "
+                                                   "leaves the hasher in that state" % (b0, nm, ty.rsplit("::", 1)[-1], cnt[0], got, (b0 + width) % block, block))
+            # (2) words handed to a block routine
+            if verdict is not False and width % 8 == 0:
+                val = 0
+                for j in range(width):
+                    val |= (0x11 * (j + 1) & 0xff) << (8 * j)
+                words = [(val >> (64 * j)) & 0xFFFFFFFFFFFFFFFF for j in range(width // 8)]
+                for b, site in g.calls():
+                    cal = site.get("callee") or ""
+                    h = prog.fns.get(cal)
+                    if h is None or h.owner != ty or h.item_name == "write" or len(site["args"]) != 1 + len(words):
+                        continue
+                    if not all((h.local_ty(i + 2) or "") == "u64" for i in range(len(words))):
+                        continue
+                    try:
+                        got = [formula.evaluate(sg.at(b, "t").operand(a), {"@prog": prog, pn: val}, bits=128) for a in site["args"][1:]]
+                    except (formula.Uneval, TypeError, IndexError):
+                        continue
+                    got = [x & 0xFFFFFFFFFFFFFFFF if isinstance(x, int) else x for x in got]
+                    if got == words:
+                        verdict = True if verdict is None else verdict
+                    elif all(isinstance(x, int) for x in got):
+                        verdict, wit = False, ("%s hands the words %s to %s for the value 0x%x; its little-endian bytes, read the way write() reads a block, "
+                                               "are the words %s" % (nm, [hex(x) for x in got], h.item_name, val, [hex(x) for x in words]))
+            res.tri(verdict, "C16.W", "C16.W|%s|%s" % (ty, nm), "%s: %s" % (g.id, wit), g.id)
+    res.rule("C16.W", n_w, 0, "typed write_* overrides of the Hasher impls (none on the pinned tree)")
+
     # ---------------- C16.T length accounting: the length mixed into the digest (L = the u64 length counter, plus the pending
     # counter when the finishing routine adds it) grows by exactly len(bytes) per write(), whatever the entry state.  The counter's
     # change over write() = its direct stores + (calls of helpers that add a constant to it) x (how often each is executed: once
